@@ -416,10 +416,13 @@ def candidates(cls_name: str, fname: str, kind: str, cur: Any,
     if kind == "str":
         if cls_name == "Description" and fname == "text":
             return [("xhtml", XHTML)]
+        # a value that looks numeric gets the next number first; the free-text candidates follow
+        # and are dropped by the validity filter where the field really is typed
         if isinstance(cur, str) and _INT_RE.match(cur):
-            return [("numstr", str(int(cur) + 1)), ("numstr", str(int(cur) + 8))]
+            return [("numstr", str(int(cur) + 1)), ("numstr", str(int(cur) + 8)),
+                    ("plain", PLAIN), ("meta", META)]
         if isinstance(cur, str) and _FLOAT_RE.match(cur):
-            return [("numstr", repr(float(cur) + 1.5))]
+            return [("numstr", repr(float(cur) + 1.5)), ("plain", PLAIN), ("meta", META)]
         if cur is None and fname in NUMERIC_STR_FIELDS:
             return [("numstr", "7"), ("plain", PLAIN), ("meta", META)]
         return [("plain", PLAIN), ("meta", META)]
